@@ -464,6 +464,7 @@ fn report(ctx: &Ctx, art: &Art, v: &Violation) -> bool {
     let want = format!("REPRODUCED property={} invariant={}", min_v.property, min_v.invariant);
     if outp.status.code() != Some(1) || !so.contains(&want) {
         eprintln!("[sim] HARNESS ERROR: fresh-process replay of {} did not reproduce ({:?}): {}", path.display(), outp.status.code(), so);
+        println!("[sim] NONDETERMINISTIC-FAILURE: {} / {} was observed in this process but its replay file does not reproduce it in a fresh one. The execution was not a function of seed and trace: the library's answer depended on something the simulator does not own (e.g. process-global state raced by the worker threads of this process).", min_v.property, min_v.invariant);
         std::process::exit(2);
     }
     println!("[sim] {}: {}", min_v.invariant, min_v.detail);
